@@ -48,6 +48,10 @@ macro_rules! ser_int {
 }
 
 impl<'a> ser::Serializer for &'a mut Ser {
+    // bincode is a binary format: std::net addresses, for one, are encoded as enums, not strings
+    fn is_human_readable(&self) -> bool {
+        false
+    }
     type Ok = ();
     type Error = Error;
     type SerializeSeq = Self;
